@@ -38,7 +38,9 @@ def handle (seen : Std.HashMap String String) (j : Json) : Except String (Json Ã
   let agree := editor == file && sameAs reqs && sameAs ds && sameAs cache && sameAs cacheReqs &&
     (!loaded || masked || (reqs == [file] && ds == [file] && cache == [file]))
   -- the property: plain entries directly inside the directories, nothing outside
-  let plain := isPlain editor && reqs.all isPlain && ds.all isPlain && cache.all isPlain && cacheReqs.all isPlain && !outside
+  -- the file transport read something although the file was absent under its (encoded) name
+  let fsFallback := optField impl "fs_fallback" == some (Json.bool true)
+  let plain := isPlain editor && reqs.all isPlain && ds.all isPlain && cache.all isPlain && cacheReqs.all isPlain && !outside && !fsFallback
   -- no collision with another role name (same naming mode), nor with a top-level role's file
   -- (every file name observed at ANY site â€” editor, request, datastore, cache â€” belongs to this role alone)
   let key := (if cs then "cs:" else "plain:") ++ editor
